@@ -137,9 +137,41 @@ func oracleServe(c serveCase, o serveObs) []core.Failure {
 			break
 		}
 	}
+	// a precompressed sidecar stands in for its base file: the base file must be servable
+	// (below the root, existing, not hidden), the encoding configured and accepted; whether the
+	// sidecar's own name matches a hide rule is not looked at by the code (histogram tag only)
+	sidecarAbs := ""
+	if o.sidecarEnc != "" {
+		sidecarAbs = resolve(c.cwd, o.fileName)
+		suf := map[string]string{"gzip": ".gz", "br": ".br", "zstd": ".zst"}[o.sidecarEnc]
+		idx := map[string]int{"gzip": 0, "br": 1, "zstd": 2}[o.sidecarEnc]
+		acc := false
+		for _, a := range c.accepted {
+			if a == o.sidecarEnc {
+				acc = true
+			}
+		}
+		switch {
+		case suf == "" || !c.pre[idx] || !acc:
+			fs = append(fs, fail("sidecar-encoding-not-negotiated", "request path %q: Content-Encoding %q served (configured %v, accepted %q)", c.path, o.sidecarEnc, c.pre, c.accepted))
+		case !strings.HasSuffix(o.fileName, suf):
+			fs = append(fs, fail("sidecar-wrong-name", "request path %q: %q served as %s sidecar", c.path, o.fileName, o.sidecarEnc))
+		default:
+			base := resolve(c.cwd, strings.TrimSuffix(o.fileName, suf))
+			n, _, err := m.lookup(strings.TrimSuffix(o.fileName, suf))
+			if err != nil || n.k != 'f' || !under(R, base) {
+				fs = append(fs, fail("sidecar-without-servable-base", "request path %q: sidecar %q served but its base file %q is not a file below the root", c.path, sidecarAbs, base))
+			} else if h, _ := specHidden(c.cwd, c.hide, base); h {
+				fs = append(fs, fail("sidecar-of-hidden-file", "request path %q: sidecar %q of hidden file %q served (hide %q)", c.path, sidecarAbs, base, c.hide))
+			}
+		}
+	}
 	// (b) whatever was read (bytes or directory entries) is below the root and not hidden
 	for _, n := range append(append([]string{}, m.readFile...), m.readDir...) {
 		p := resolve(c.cwd, n)
+		if p == sidecarAbs && under(R, p) {
+			continue
+		}
 		if !under(R, p) {
 			fs = append(fs, fail("read-outside-root", "request path %q: contents of %q (outside root %q) were read", c.path, p, R))
 		} else if h, _ := specHidden(c.cwd, c.hide, p); h {
@@ -152,6 +184,9 @@ func oracleServe(c serveCase, o serveObs) []core.Failure {
 			if n.k != 'f' || !strings.Contains(o.body, marker(n.id)) {
 				continue
 			}
+			if p == sidecarAbs && under(R, p) {
+				continue
+			}
 			if !under(R, p) {
 				fs = append(fs, fail("body-leaks-outside-file", "request path %q served the bytes of %q, outside root %q", c.path, p, R))
 			} else if h, _ := specHidden(c.cwd, c.hide, p); h {
@@ -159,7 +194,7 @@ func oracleServe(c serveCase, o serveObs) []core.Failure {
 			}
 		}
 	}
-	if strings.HasPrefix(o.outcome, "file ") {
+	if strings.HasPrefix(o.outcome, "file ") || strings.HasPrefix(o.outcome, "sidecar ") {
 		_, abs, err := m.lookup(o.fileName)
 		if err != nil || o.body != marker(c.tree[abs].id) {
 			fs = append(fs, fail("body-mismatch", "request path %q: body %q is not the content of the opened file %q", c.path, o.body, o.fileName))
@@ -186,12 +221,7 @@ func oracleServe(c serveCase, o serveObs) []core.Failure {
 				child = "/" + name
 			}
 			if h, pathOnly := specHidden(c.cwd, c.hide, child); h {
-				// residual hypothesis of the theorem listing_omits_hidden: the listed directory is the
-				// file the request itself mapped to (not a directory reached through an index name)
-				viaIndex := len(m.opened) > 0 && resolve(c.cwd, m.opened[0]) != dir
-				if pathOnly && viaIndex {
-					fs = append(fs, fail("listing-via-directory-index-shows-entry-hidden-by-path-rule", "request path %q: listing of %q (a directory used as index file) shows %q although %q is hidden by a path rule (hide %q)", c.path, dir, n, child, c.hide))
-				} else if pathOnly {
+				if pathOnly {
 					fs = append(fs, fail("listing-shows-entry-hidden-by-path-rule", "request path %q: listing of %q shows %q although %q is hidden by a path rule (hide %q)", c.path, dir, n, child, c.hide))
 				} else {
 					fs = append(fs, fail("listing-shows-hidden-entry", "request path %q: listing of %q shows hidden entry %q (hide %q)", c.path, dir, n, c.hide))
@@ -203,7 +233,7 @@ func oracleServe(c serveCase, o serveObs) []core.Failure {
 	//     servable target, or the status of a filesystem error that the tree contains)
 	kindOf := strings.Fields(o.outcome)[0]
 	switch kindOf {
-	case "file", "listing":
+	case "file", "listing", "sidecar":
 	case "notfound":
 		if c.pass {
 			fs = append(fs, fail("notfound-despite-passthru", "request path %q: 404 although pass_thru is set", c.path))
@@ -239,7 +269,7 @@ func oracleServe(c serveCase, o serveObs) []core.Failure {
 	default:
 		fs = append(fs, fail("unexpected-outcome", "request path %q: outcome %q", c.path, o.outcome))
 	}
-	if !strings.HasPrefix(o.outcome, "file ") && !strings.HasPrefix(o.outcome, "listing ") && kindOf != "passthru" && strings.Contains(o.body, "FILE:") {
+	if !strings.HasPrefix(o.outcome, "file ") && !strings.HasPrefix(o.outcome, "sidecar ") && !strings.HasPrefix(o.outcome, "listing ") && kindOf != "passthru" && strings.Contains(o.body, "FILE:") {
 		fs = append(fs, fail("body-with-non-file-outcome", "request path %q: outcome %q but body %q", c.path, o.outcome, o.body))
 	}
 	return fs
@@ -329,6 +359,23 @@ func serveTags(c serveCase, o serveObs) []string {
 	}
 	if !strings.HasPrefix(c.root, "/") {
 		t = append(t, "serve:relative-root")
+	}
+	if c.phRoot {
+		t = append(t, "serve:root-from-placeholder")
+	}
+	if o.sidecarEnc != "" {
+		if h, _ := specHidden(c.cwd, c.hide, resolve(c.cwd, o.fileName)); h {
+			t = append(t, "serve:hidden-sidecar-served")
+		}
+	}
+	if len(c.accepted) > 0 && (c.pre[0] || c.pre[1] || c.pre[2]) && kindOf == "file" {
+		t = append(t, "serve:precompressed-configured-plain-file-served")
+	}
+	if c.phHide && len(c.hide) > 0 {
+		t = append(t, "serve:hide-from-placeholders")
+	}
+	if c.phIndex && len(c.index) > 0 {
+		t = append(t, "serve:index-from-placeholders")
 	}
 	if R == "/" {
 		t = append(t, "serve:root-is-slash")
